@@ -52,6 +52,26 @@ def run(ctx):
                 T_ad, F_ad = field_bool_edges(h, "admin", hsw)
                 wit = h.uncrossed_path([outer], [term[0].block], edges=F_ad)
                 r1.check(bool(F_ad) and wit is None, "only-non-admin-kicked", "only non-admin clients are disconnected on shutdown", "an admin client can be disconnected by shutdown", "", wit and h.describe_path(wit))
+                # ... and every non-admin client is: once the broadcast was received (it is consumed: there is no second one), going on without the
+                # administrator-command error is possible only for an admin (round 6: `!admin && batch buffer empty` let a client in the middle of a batch
+                # read the notice, ignore it and stay for ever)
+                goes_on = [c.block for c in h.calls("pgcat::messages::read_message") if c.block not in inner_blocks] + [outer]
+                starts_ = [rc[0].target] if rc and rc[0].target is not None else []
+                # the arm of the select that belongs to the shutdown branch: blocks dominated by the switch arm that leads to the terminal error
+                sel_arm = None
+                for sw in hsw:
+                    d_ = sw.discr()
+                    if d_ and "__tokio_select_util::Out<" in d_[0]:
+                        for v_, t_ in d_[2].items():
+                            if h.dominates(t_, term[0].block):
+                                sel_arm = t_
+                if sel_arm is None:
+                    r1.missing("select! arm of the shutdown branch in the idle loop")
+                else:
+                    w_ = h.uncrossed_path([sel_arm], goes_on, blocks=[term[0].block], edges=T_ad)
+                    r1.check(bool(T_ad) and w_ is None, "every-non-admin-kicked", "in the shutdown arm only `admin == true` leads on to the next message; every other path sends the administrator-command error",
+                             "in the shutdown arm a non-admin client can go on reading messages (the broadcast is consumed, it will never be told again): it keeps starting transactions and holds the drain count above 0 until shutdown_timeout",
+                             "", w_ and h.describe_path(w_))
                 after = h.reach([term[0].target], avoid_blocks=[outer]) if term[0].target is not None else set()
                 disc = [c for c in h.calls("pgcat::stats::client::ClientStats::disconnect") if c.block in after]
                 oks = [blk for blk, i, st in h.assigns() if blk in after and st["lhs"]["l"] == 0 and st["rv"]["k"] == "agg" and st["rv"].get("variant") == "Ok"]
